@@ -56,6 +56,13 @@ for i in range(1, 21):
     if pid not in CHECKS:
         PENDING[pid] = "check not built yet in this session (design in DESIGN.md section 3); will be claimed once its harness exists"
 
+TECH = {
+    "E2": "explicit-state model checking of the real class: fixpoint closure of a reference model's state graph with every transition replayed on the implementation (conformance), plus all operation histories to a depth; exhaustive within stated bounds, no sampling, no solver",
+    "E1": "explicit-state exploration of the real classes: all operation histories over an alphabet, states grouped by observable content, oracle evaluated on every reached state; exhaustive within stated bounds",
+    "E3": "stateless model checking of the real code under scripted random sources: every resolution of every random draw (full choice tree, or all executions with <= D deviations from the default answer), oracle on every execution; no sampling",
+    "E4": "bounded-exhaustive enumeration of every input (container content built by several histories x every parameter combination) with a definitional oracle; no sampling, no solver",
+}
+
 m = {
     "version": 1,
     "setup_cmd": "/venv/bin/python -m compileall -q hgxmc >/dev/null; test -x bin/check",
@@ -71,6 +78,8 @@ m = {
          "kind_free_text": "explicit-state BFS over the real container classes against a reference map model (closure + conformance replay; depth-bounded histories)"},
         {"name": "E3 choice-point explorer", "path": "hgxmc/choice.py", "serves_properties": ["C13", "C14", "C16", "C17", "C18"],
          "kind_free_text": "stateless exhaustive / deviation-bounded enumeration of every answer of every random draw, scripted through module-level seams"},
+        {"name": "seam validation", "path": "hgxmc/seams.py", "serves_properties": ["C13", "C14", "C15", "C16", "C17", "C18", "C20"],
+         "kind_free_text": "runs the real function once with the real random source under a recorder; every random API reached must be modelled by the fakes, else the check is a harness error (exit 2)"},
         {"name": "E4 bounded-exhaustive corpora", "path": "hgxmc/corpus.py", "serves_properties": ["C05", "C06", "C08", "C09", "C10", "C11", "C12", "C15", "C19", "C20"],
          "kind_free_text": "every container content over a small universe x every parameter combination, definitional oracles"},
     ],
@@ -89,7 +98,7 @@ for pid in sorted(CHECKS):
         "engine": engine,
         "level_claimed": {"category": level, "text": text, "design_ref": ref},
         "level_note": note,
-        "technique": "bounded exhaustive explicit-state exploration of the real code against a reference model (no sampling, no solver)",
+        "technique": TECH[engine.split("+")[0].split(" ")[0]],
     })
 json.dump(m, open(os.path.join(HERE, "MANIFEST.json"), "w"), indent=1)
 print("wrote MANIFEST.json with", len(m["checks"]), "checks")
